@@ -33,7 +33,6 @@ class _InMemoryConsumer(ConsumerT):
         self._paused = asyncio.Lock()
         self._started = False
         self.__taken_from_delayed: datetime | None = None
-        self._taken: set[Message] = set()
 
         self.__category_to_consume = {
             MessageCategory.NORMAL: self.__consume_normal,
@@ -57,11 +56,11 @@ class _InMemoryConsumer(ConsumerT):
         await asyncio.sleep(0)
         self._started = False
         # return only the messages which were consumed by this consumer and are still unsettled
-        for msg in self._taken:
-            if msg in self._queue.processing:
+        for msg in list(self._queue.processing):
+            taken = self._queue.taken_from.get(msg.key.id_)
+            if taken is not None and taken[2] is self:
                 self._queue.processing.remove(msg)
                 self._queue.put_back(msg)
-        self._taken.clear()
         await asyncio.sleep(0)
 
     def __update_delayed(self) -> None:
@@ -125,12 +124,11 @@ class _InMemoryConsumer(ConsumerT):
                 self.__update_delayed()
 
         self._queue.processing.add(msg)
-        self._taken.intersection_update(self._queue.processing)  # forget settled messages
-        self._taken.add(msg)
         # remember the source category, so that reject can return the message there
         self._queue.taken_from[msg.key.id_] = (
             self.category.value,
             self.__taken_from_delayed if self.category == MessageCategory.DELAYED else None,
+            self,
         )
 
         await asyncio.sleep(0)
